@@ -14,7 +14,7 @@ def run(prop, tier, seed):
     forms = {c["form"] for c in run_cases}
     ops = {c["op"] for c in run_cases}
     rules = {c["rule"] for c in run_cases}
-    if len(forms) < 24 or len(ops) < 6 or rules != {"diag", "effect", "either"}:
+    if len(forms) < 29 or len(ops) < 6 or rules != {"diag", "effect", "either"}:
         raise vlib.ToolError("C20 enumeration is degenerate: %d forms, %d operators, rules %s" % (len(forms), len(ops), rules))
     # how the either-or-diagnostic forms were actually treated (measured, informational)
     either = [(c, o) for c, o in zip(run_cases, obs) if c["rule"] == "either" and c["id"] not in fset]
